@@ -25,12 +25,12 @@ func init() {
 			{Pkg: bm, Func: "ZZ_C17_Long_Equal", Quick: tier(w2), Thorough: tier(w3)},
 			{Pkg: bm, Func: "ZZ_C17_Long_Inject", Quick: tier(w2), Thorough: tier(w3), Bounds: "Inject(p,v) recursion through all words"},
 			{Pkg: bm, Func: "ZZ_C17_Short_IsSet", Quick: tier(w3), Thorough: tier(map[string]int{"words": 4})},
-			{Pkg: bm, Func: "ZZ_C17_Short_Point", Quick: tier(w2), Thorough: tier(w3)},
+			{Pkg: bm, Func: "ZZ_C17_Short_Point", Quick: tier(w3), Thorough: tier(map[string]int{"words": 4})},
 			{Pkg: bm, Func: "ZZ_C17_Short_Binary", Quick: tier(w2), Thorough: tier(w3)},
-			{Pkg: bm, Func: "ZZ_C17_Short_Observers", Quick: tier(w2), Thorough: tier(w3)},
+			{Pkg: bm, Func: "ZZ_C17_Short_Observers", Quick: tier(w3), Thorough: tier(map[string]int{"words": 4})},
 			{Pkg: bm, Func: "ZZ_C17_Short_OnesCount", Quick: tier(w3), Thorough: tier(map[string]int{"words": 4})},
-			{Pkg: bm, Func: "ZZ_C17_Short_Equal", Quick: tier(w2), Thorough: tier(w3)},
-			{Pkg: bm, Func: "ZZ_C17_Short_InjectExtract", Quick: tier(w2), Thorough: tier(w3)},
+			{Pkg: bm, Func: "ZZ_C17_Short_Equal", Quick: tier(w3), Thorough: tier(map[string]int{"words": 4})},
+			{Pkg: bm, Func: "ZZ_C17_Short_InjectExtract", Quick: tier(w3), Thorough: tier(map[string]int{"words": 4})},
 			{Pkg: bm, Func: "ZZ_C17_Conn_IsSet", Solver: "cvc5", Quick: tier(r3), Thorough: tier(map[string]int{"runs": 4})},
 			{Pkg: bm, Func: "ZZ_C17_Conn_Point", Solver: "cvc5", Quick: tier(r2), Thorough: tier(r3), Bounds: "0..runs valid runs (sorted, disjoint, not touching, < 2^62), Set/Unset/Flip"},
 			{Pkg: bm, Func: "ZZ_C17_Conn_Or", Solver: "cvc5", Quick: tier(r21), Thorough: tier(r2)},
@@ -249,6 +249,7 @@ func init() {
 			{Pkg: ix, Func: "ZZ_C12_Unfinalized", Quick: tier(c12p), Bounds: "writer closed without Finalize, buffer flushed or not: rejected (magic is written last)"},
 			{Pkg: "internal/index/builder", Func: "ZZ_C12_Snapshots", Quick: tier(nil), Bounds: "1..2 snapshots, 1..2 capture names, 0..2 packet numbers each (symbolic), chunk counts symbolic: save/load round trip; the file cut at every byte position is an error"},
 			{Pkg: cv, Func: "ZZ_C15_Cut", Quick: tier(map[string]int{"chunks": 1, "chunklen": 2, "ctypes": 2, "dts": 2}), Bounds: "converter cache cut inside its last record (shared with C15)"},
+			{Pkg: mg, Func: "ZZ_C12_Restart", Quick: &Tier{Params: map[string]int{"realjobs": 1, "gates": 7}, Samples: 8}, Bounds: "a service with 3 tags and 2..3 imported captures is shut down or killed at one of 7 job-level gates (settled; tagging job in flight with a later import completed; between an import's body and completion; inside the body with the index cut at 4 positions; merge body between an import's body and completion, killed / shut down later; inside a state save with the new file cut at 4 positions); the real manager.New starts from the directories left behind, settles, optionally imports one more capture; payload sizes and the data tag's threshold symbolic"},
 		},
 		Assumptions: []string{"FILE-FORMAT SLICE ONLY: a half-written index, snapshot or cache file is modelled as a prefix of the complete file (cut at a byte) or as the pre-Finalize content; completed system calls persist", "NOT covered: the state file (JSON via reflection), manager.New's directory scan and tag re-convergence after restart, crash points between individual system calls of a running service"},
 		Outside: []string{"restart of the whole service", "state.json", "torn writes / reordering below system-call level"},
